@@ -84,7 +84,8 @@ class IndependentMultitaskVariationalStrategy(_VariationalStrategy):
 
             # Create a mask to choose specific task assignment
             task_mask = torch.nn.functional.one_hot(task_indices, num_classes=self.num_tasks)
-            task_mask = task_mask.permute(*range(0, task_dim), *range(task_dim + 1, num_batch + 1), task_dim)
+            # (one_hot puts the task axis last: bring it to the position of the task dimension)
+            task_mask = task_mask.permute(*range(0, task_dim), num_batch, *range(task_dim, num_batch))
 
             mean = (function_dist.mean * task_mask).sum(task_dim)
             covar = (function_dist.lazy_covariance_matrix * RootLinearOperator(task_mask[..., None])).sum(task_dim)
